@@ -166,6 +166,13 @@ pub broadcast proof fn axiom_fr_view_bound(x: Fr) ensures #[trigger] x.view() < 
 // field elements (`==` of ark-ff compares the representation) is equality of views
 #[verifier::external_body]
 pub proof fn axiom_fr_ext(a: Fr, b: Fr) requires a.view() == b.view() ensures a == b {}
+// the field element with canonical value n (unique by axiom_fr_ext)
+pub open spec fn fr_of(n: nat) -> Fr { choose|x: Fr| x.view() == n }
+pub proof fn lemma_fr_of(x: Fr) ensures fr_of(x.view()) == x {
+    let y = fr_of(x.view());
+    assert(y.view() == x.view());
+    axiom_fr_ext(y, x);
+}
 pub open spec fn frs_view(v: Seq<Fr>) -> Seq<nat> { Seq::new(v.len(), |i: int| v[i].view()) }
 pub proof fn lemma_frs_ext(a: Seq<Fr>, b: Seq<Fr>) requires frs_view(a) == frs_view(b) ensures a == b {
     assert(a.len() == frs_view(a).len() && b.len() == frs_view(b).len());
